@@ -90,6 +90,8 @@ def expr(t):
             args.pop()
         parts = [expr(args[0])] + ['_' if (a['k'] == 'const' and a['v'][0] == 0) else expr(a) for a in args[1:]]
         return '%s(%s)' % (t['op'], ', '.join(parts))
+    if k == 'in' and t.get('dom'):
+        return '%s %s %s' % (operand(t['x']), 'not_in' if t['neg'] else 'in', name(t['dom']))
     if k == 'in':
         return '%s %s {%s}' % (operand(t['x']), 'not_in' if t['neg'] else 'in', ', '.join(const(v) for v in t['set']))
     if k == 'udo':
